@@ -6,6 +6,7 @@ import (
 	"fmt"
 	"math"
 	"net"
+	"slices"
 	"sort"
 	"strings"
 	"time"
@@ -2001,8 +2002,13 @@ func (cs *ConditionsSet) SubQueries() []string {
 		if len(needed) == 0 {
 			return filters, []string{wantedSubQuery}
 		}
-		bestOrder := []string(nil)
-		bestFilters := uint(0)
+		// all needed sub queries have to be evaluated before this one, the ones with the most filters first
+		type resolution struct {
+			sq      string
+			filters uint
+			order   []string
+		}
+		resolutions := []resolution(nil)
 		for sq := range needed {
 			newForbidden := map[string]struct{}{}
 			for f := range forbidden {
@@ -2010,13 +2016,24 @@ func (cs *ConditionsSet) SubQueries() []string {
 			}
 			newForbidden[wantedSubQuery] = struct{}{}
 			curFilters, resolutionOrder := resolve(sq, newForbidden)
-			if bestFilters > curFilters {
-				continue
-			}
-			bestFilters = curFilters
-			bestOrder = resolutionOrder
+			resolutions = append(resolutions, resolution{sq, curFilters, resolutionOrder})
 		}
-		return bestFilters + filters, append(bestOrder, wantedSubQuery)
+		sort.Slice(resolutions, func(i, j int) bool {
+			if resolutions[i].filters != resolutions[j].filters {
+				return resolutions[i].filters > resolutions[j].filters
+			}
+			return resolutions[i].sq < resolutions[j].sq
+		})
+		order := []string(nil)
+		for _, r := range resolutions {
+			for _, sq := range r.order {
+				if !slices.Contains(order, sq) {
+					order = append(order, sq)
+				}
+			}
+			filters += r.filters
+		}
+		return filters, append(order, wantedSubQuery)
 	}
 	_, res := resolve("", nil)
 	return res
